@@ -129,7 +129,7 @@ def check_before_everything(ctx, inst, fn, cont_edges, exempt_blocks, what, key)
     return n
 
 
-def run(ctx):
+def _run(ctx):
     P = ctx.P
     r1 = ctx.inst("C09.R1", "decision table of the native-funds check: Ok only for {cw20} / {native, coin found, amount == coin.amount} / {native, no coin, amount == 0}", floor=3)
     r2 = ctx.inst("C09.R2", "provide handler applies the check to every declared asset with the transaction's info, error propagated, before anything else", floor=2)
@@ -253,3 +253,11 @@ def run(ctx):
             else:
                 r3.site("%s path: swap handler's info ⊢ %s" % (label, P_(disp, di)))
     ctx.assumptions.append("the bank module credits attached funds before execution and a cw20 hook call carries no funds (platform)")
+
+
+def run(ctx):
+    from .. import lemmas
+    _run(ctx)
+    l1 = ctx.inst("C09.L1", "support lemmas: the funds check is skipped exactly for non-native assets and the handlers match declared assets to pools by a true equality of (kind, identifier) — so a native pool is never credited through an asset declared as a Token", floor=2)
+    lemmas.check_equal(ctx, l1)
+    lemmas.check_is_native(ctx, l1)
